@@ -26,14 +26,12 @@ def disjointB (a b : List Nat) : Bool := a.all (fun x => !b.contains x)
 
 /-- Well-formed programs of nesting depth `< fuel`: distinct local names, distinct outputs that the
 graph defines, no name defined inside a subgraph is also defined by the enclosing graph
-(ONNX: no shadowing), and — the fragment restriction — no operator's subgraphs capture a name that
-the graph itself captures (`NoRecapture`). -/
+(ONNX: no shadowing). -/
 def wfG : Nat → Graph P V → Bool
   | 0, _ => false
   | f + 1, g =>
     decide g.defs.Nodup && decide g.outputs.Nodup && g.outputs.all (fun n => g.defs.contains n) &&
     g.ops.all (fun op =>
-      op.capNames.all (fun n => !g.caps.contains n) &&
       (match op with
        | .prim _ _ _ => true
        | .ifOp _ t e _ =>
@@ -122,10 +120,18 @@ def headOK : List (Frame V) → Prop
   | [] => True
   | f :: _ => ∀ n, look f.byVal n ≠ none → f.locals.contains n = true ∧ look f.tempRef n = none
 
+/-- The by-value map of the innermost environment. -/
+def headByVal : List (Frame V) → Env V
+  | [] => []
+  | f :: _ => f.byVal
+
 structure Inv (g : Graph P V) (views : Env V) (σp : Env V)
     (rest : List (Op P V)) (st : St V) (b : Env V) : Prop where
   shadowE : ∀ n, n ∈ g.allDefs → getInput st.env n = none
   headok : headOK st.env
+  /-- a value that was moved by value into this graph's environment is named at most once among
+  the graph's (transitive) capture names -/
+  byvalonce : ∀ n, look (headByVal st.env) n ≠ none → g.capNames.count n ≤ 1
   rc : RcInv g rest st
   keys : ∀ n, look st.temp n ≠ none → n ∈ g.valueDefs
   bkeys : ∀ n, look b n ≠ none → n ∈ g.defs
@@ -164,6 +170,7 @@ theorem inv_finish (g : Graph P V) (views : Env V) (σp : Env V)
     (henv1 : ∀ m, getInput st1.env m = getInput st.env m ∨
       (st.rc m = 1 ∧ m ∈ deps g op ∧ isValueNode g m = true ∧ (m ∈ g.defs ∨ m ∈ g.caps)))
     (hsh1 : ∀ m, m ∈ g.allDefs → getInput st1.env m = none) (hhd1 : headOK st1.env)
+    (hbo1 : ∀ n, look (headByVal st1.env) n ≠ none → g.capNames.count n ≤ 1)
     (hrc : st1.rc = st.rc)
     (heff : ∀ m, look st1.temp m = look st.temp m ∨
       (look st1.temp m = none ∧ st.rc m = 1 ∧ m ∈ deps g op)) :
@@ -211,7 +218,8 @@ theorem inv_finish (g : Graph P V) (views : Env V) (σp : Env V)
     · cases hs : look (op.outs.zip r ++ st.temp) n with
       | none => exact h1
       | some v => exact absurd h2 (hdead (by simp [hs]))
-  refine ⟨by rw [henv']; exact hsh1, by rw [henv']; exact hhd1, hrcinv, ?_, ?_, ?_, ?_⟩
+  refine ⟨by rw [henv']; exact hsh1, by rw [henv']; exact hhd1, by rw [henv']; exact hbo1,
+    hrcinv, ?_, ?_, ?_, ?_⟩
   · intro n hn
     rcases heff' n with h | ⟨h1, _⟩
     · rw [h, look_append] at hn
